@@ -56,13 +56,13 @@ func TestVerifC19_count_agg(t *testing.T) {
 	r := verifmc.Start(t, "C19", "count_agg")
 	defer r.Finish()
 	plan := verifc19.AggPlan{
-		Insts:       []prio.Inst{c19Inst},
-		FullShares:  []int{2, 3, 4, 8, 9},
-		LightShares: []int{5, 16, 128, 254, 255},
-		MaxBatch:    r.Pick(5, 8),
-		RTMaxBatch:  2,
-		Seeds:       5,
-		DomainLimit: 8,
+		Insts:         []prio.Inst{c19Inst},
+		FullShares:    []int{2, 3, 4, 8, 9},
+		LightShares:   []int{5, 16, 128, 254, 255},
+		MaxBatch:      r.Pick(5, 8),
+		RTMaxBatch:    2,
+		Seeds:         5,
+		DomainLimit:   8,
 		SweepInsts:    []prio.Inst{c19Inst},
 		HistoryInsts:  []prio.Inst{c19Inst},
 		HistoryShares: []int{2, 3},
@@ -75,6 +75,7 @@ func TestVerifC19_count_agg(t *testing.T) {
 }
 
 func TestVerifC19_count_invalid(t *testing.T) {
+	verifc19.SkipNarrow(t)
 	r := verifmc.Start(t, "C19", "count_invalid")
 	defer r.Finish()
 	plan := verifc19.InvalidPlan{
